@@ -38,3 +38,13 @@ def run(ctx):
         ctx.rule("R1", "writer/reader schema agreement for the primitive impls in winter_utils::serde", 10)
         ctx.guard("R1", lambda c: c07.run_schema(c, "R1", only_crates=("winter_utils",)))
     ctx.assume("the vint64 arithmetic of write_usize/read_usize/usize_encoded_len is value-level and not decided")
+
+
+def thorough(ctx):
+    from . import c07
+    ctx.guard("R1", lambda c: c07.run_schema(c, "R1", only_crates=("winter_utils",), cfg="nostd"))
+
+    def go(c):
+        entries = entry_points(c.prog("nostd"))
+        c05.run_inventory(c, "R2", entries, "no_std build", cfg="nostd")
+    ctx.guard("R2", go)
